@@ -112,6 +112,10 @@ for _name in ('KeyError', 'IndexError', 'ValueError', 'TypeError', 'NameError', 
 MODES['DeepChain'] = "\n".join("def f%d():\n    return f%d()" % (i, i + 1) for i in range(10)) + \
     "\ndef f10():\n    y = 2\n    return [][y]\nf0()"
 MODES['DeepRecursionBase'] = "def cd(n):\n    if n == 0:\n        return 1 / 0\n    return cd(n - 1)\ncd(12)"
+# the same failure at every call depth of a geometric ladder (no display or extraction limit may move the location)
+DEPTHS = (1, 2, 4, 8, 16, 32, 64, 96, 98, 99, 100, 101, 128, 200, 256, 400, 512, 700)
+for _d in DEPTHS:
+    MODES['Depth:%d' % _d] = "def total(v, i):\n    if i == %d:\n        return v[i + 1]\n    return v[i] + total(v, i + 1)\ntotal([1] * %d, 0)" % (_d, _d + 1)
 COMPILE_FAIL = ('Syntax', 'Indent', 'Tab', 'NUL', 'UntermStr', 'CompileRecursion', 'Surrogate')
 SYSTEM_EXIT = ('exit()', 'quit()', 'sys.exit', 'sys.exit msg', 'SystemExit')
 BASE_MODES = {
